@@ -196,6 +196,15 @@ class FunctionVC(Executor):
         contract = self.project.contracts.get(key)
         if contract is None:
             name = key.split(":")[1]
+            decl = self.model.opaque_decl(name)
+            if decl.get("pure") and not kwargs:
+                # declared PURE and total (assumed contract): an uninterpreted function of its arguments
+                from .values import BVal, IVal
+                f = z3.Function("F_" + name.replace(".", "_"), *([smt.V] * len(args)), smt.V)
+                t = f(*[to_v(a, s) for a in args])
+                rty = decl.get("returns", ANY)
+                yield s, (BVal(t == smt.TRUE) if rty == BOOL else IVal(smt.ival(t)) if rty == INT else Val(t, rty))
+                return
             s.trace.append(("call", name, {"args": args, "kwargs": kwargs}))
             yield from calls.opaque_result(self, name, s, ANY)
             return
